@@ -68,7 +68,7 @@ def main(tier):
             ("reps_z3", "MC_Reps_z3.cfg", zpbins, 3)]
     for part, cfg, bs, p in plan:
         r, g, summ, devs, crashes = pm_common.run_model(ev, part, cfg, bs, p, walks=200 if tier == "quick" else 2000,
-                                                        walk_len=12, extra_env={"VF_IDS": "seq"})
+                                                        walk_len=12, extra_env={"VF_IDS": "seq", "VF_MID_UPDATE": "1"})
         if r.violation:
             pth = vf.save_replay(PROP, part + "_model", {"tlc": r.violation})
             vf.violation(PROP, pth)
